@@ -374,6 +374,39 @@ func c07Run(c *fw.Ctx, b fw.Batch) {
 			}
 			x[off] = 'x'
 		}
+	case "pre-read":
+		for _, x := range [][]byte{[]byte("plain text"), []byte("text with \x00 inside"), {}, []byte("\xef\xbb\xbfbom\x00"), []byte("{\"a\":1}"), {0x00}, []byte("x")} {
+			for _, l := range []uint32{0, 3072, 4, uint32(len(x))} {
+				for _, e := range []string{"DetectReaderPreRead", "DetectReaderPreReadText"} {
+					c07Judge(c, "pre-read", x, l, e, fmt.Sprintf("pre|%d|%d|%s", len(x), l, e))
+				}
+			}
+		}
+	case "counts":
+		// a binary data byte counts however often it occurs: exact powers of two (counters that
+		// wrap), and byte-order marks of encodings the statement does not list followed by binary data
+		for _, n := range []int{255, 256, 257, 65535, 65536, 65537, 131072, 1 << 20} {
+			for _, v := range []byte{0x00, 0x01, 0x1F} {
+				x := append(append([]byte("some clean text in front\n"), bytes.Repeat([]byte{v}, n)...), " and clean text behind\n"...)
+				for _, l := range []uint32{0, uint32(len(x)), 1 << 22} {
+					c07Judge(c, "counts", x, l, "Detect", fmt.Sprintf("counts|%d|%02x|%d", n, v, l))
+				}
+				// two different binary values, each an exact multiple of 65536
+				if n == 65536 {
+					y := append(append([]byte("t "), bytes.Repeat([]byte{v, v ^ 0x02}, n)...), " t"...)
+					c07Judge(c, "counts", y, 0, "Detect", "")
+				}
+			}
+		}
+		otherMarks := [][]byte{{0x84, 0x31, 0x95, 0x33}, {0x2B, 0x2F, 0x76, 0x38}, {0x2B, 0x2F, 0x76, 0x2F}, {0xF7, 0x64, 0x4C}, {0xDD, 0x73, 0x66, 0x73}, {0x0E, 0xFE, 0xFF}, {0xFB, 0xEE, 0x28}, {0xFF, 0xFE, 0xFF}, {0xEF, 0xBB}, {0xEF, 0xBF, 0xBE}, {0xFE, 0xFE}}
+		for _, mk := range otherMarks {
+			for _, tail := range [][]byte{{0x00, 0x01, 'x'}, []byte("text\x00more"), {0x1A}, []byte("clean text only")} {
+				x := append(append([]byte{}, mk...), tail...)
+				for _, l := range []uint32{0, uint32(len(mk)), uint32(len(mk) + 1), uint32(len(x))} {
+					c07Judge(c, "other-marks", x, l, "Detect", fmt.Sprintf("marks|%x|%d", mk, l))
+				}
+			}
+		}
 	case "readers":
 		// texts of 5 … 20 KB with one binary byte at offsets around the buffer sizes of the
 		// standard readers (16, 512, 4096, 8192), limits on both sides of it
@@ -382,7 +415,7 @@ func c07Run(c *fw.Ctx, b fw.Batch) {
 			for _, v := range []byte{0x00, 0x1F, 0x08} {
 				x[off] = v
 				for _, l := range []uint32{0, 3072, uint32(off), uint32(off + 1), 8192, 16384, 1 << 20} {
-					for _, e := range []string{"Detect", "DetectReader", "DetectReader1", "DetectReaderBufio", "DetectReaderBufio16"} {
+					for _, e := range []string{"Detect", "DetectReader", "DetectReader1", "DetectReaderBufio", "DetectReaderBufio16", "DetectReaderPreRead", "DetectReaderPreReadText"} {
 						c07Judge(c, "readers", x, l, e, fmt.Sprintf("readers|%d|%d|%s", off, l, e))
 					}
 				}
@@ -434,6 +467,8 @@ func init() {
 			bs = append(bs, batches("huge", 1, 0, 900)...)
 			bs = append(bs, batches("files", 1, 0, 900)...)
 			bs = append(bs, batches("readers", 1, 0, 900)...)
+			bs = append(bs, batches("counts", 1, 0, 900)...)
+			bs = append(bs, batches("pre-read", 1, 0, 900)...)
 			n := 100000
 			if tier == "thorough" {
 				n = 15000000
